@@ -15,8 +15,21 @@
 (* (Crash) or make the next step return an error (Fail: ENOSPC, EIO); while *)
 (* the process is down it may replace the cache file / directory by        *)
 (* something unsafe (Tamper).  Memory contents are abstracted to a version  *)
-(* number; a file is [ex, id, n]: exists, the version it was written from,  *)
-(* the number of chunks it holds (complete iff n = Chunks).                *)
+(* number; versions have different serialized sizes (Size(v) chunks: the    *)
+(* cache grows and shrinks).  A file is [ex, id, n, len]: exists, the       *)
+(* version its first n chunks were written from, its length in chunks;      *)
+(* chunks n+1 .. len are whatever the file held before it was opened        *)
+(* WITHOUT truncation (the real code truncates, so len = n there).  A file  *)
+(* is a complete snapshot iff n = len = Size(id).                          *)
+(*                                                                         *)
+(* SEVERAL GENERATIONS (save / restart / save / restart ...):               *)
+(*  - a save that was interrupted leaves its temporary file behind; the     *)
+(*    next save (of this or of a later process) opens that very path;      *)
+(*  - after a restart the memory consists of a part that was only LOADED   *)
+(*    (kept in its serialized form until somebody asks for it: the policy   *)
+(*    entries, cch.PolicyJSON vs cch.policyData) and the part touched in    *)
+(*    this process; `untouched` says that a loaded-only part exists.  A     *)
+(*    save has to serialize both.                                          *)
 (*                                                                         *)
 (* Deviation # "none" models a defect class each; TLC must find the        *)
 (* violation (MC_Persist_dev_*.cfg) -- this shows that the predicates can  *)
@@ -27,8 +40,11 @@ EXTENDS PersistPreds, Integers, TLC
 CONSTANTS Chunks,     \* write(2)-level chunks per snapshot, >= 1
           MaxVer,     \* memory versions explored
           Deviation   \* "none" | "inplace" | "ignore_write_error" | "early_rename" | "unlink_first" | "stat_follows_symlink"
+                      \* | "no_trunc" (the temporary file is opened without O_TRUNC)
+                      \* | "drop_untouched" (a save serializes only what was touched in this process)
 
 VARIABLES mem,        \* version of the cache in memory (0 = the empty cache)
+          untouched,  \* part of the memory content was loaded from the file and not yet touched in this process
           up,         \* "up" | "down" | "refused" | "loaderror"
           pc,         \* next step of the running Save: "idle" | "open" | "write" | "close" | "rename" | "unlink"
           snap,       \* version being saved
@@ -38,11 +54,18 @@ VARIABLES mem,        \* version of the cache in memory (0 = the empty cache)
           fpath, dpath, \* [kind, mode] of the cache file path and the cache directory
           usedUnsafe  \* history: a start-up went on with an unsafe path
 
-vars == <<mem, up, pc, snap, cache, tmp, lastOk, inflight, fpath, dpath, usedUnsafe>>
+vars == <<mem, untouched, up, pc, snap, cache, tmp, lastOk, inflight, fpath, dpath, usedUnsafe>>
 
-Absent == [ex |-> FALSE, id |-> 0, n |-> 0]
-File(v, k) == [ex |-> TRUE, id |-> v, n |-> k]
-Complete(f) == f.ex /\ f.n = Chunks
+\* serialized size of a version in chunks, 1 .. Chunks: consecutive versions grow and shrink (Chunks = 2: 1,2,1,2,..;
+\* Chunks = 3: 1,3,2,1,3,..).  Stripped(v) is what the deviation "drop_untouched" writes for v: v without the part
+\* that was only loaded (negative codes; the real code never produces one).
+Stripped(v) == -1 - v
+Size(v) == IF v < 0 THEN 1 ELSE 1 + ((v * (Chunks - 1)) % Chunks)
+Max2(a, b) == IF a >= b THEN a ELSE b
+
+Absent == [ex |-> FALSE, id |-> 0, n |-> 0, len |-> 0]
+File(v, k, l) == [ex |-> TRUE, id |-> v, n |-> k, len |-> l]
+Complete(f) == f.ex /\ WholeFile(f.n, f.len, Size(f.id))
 
 InPlace == Deviation = "inplace"
 \* the file the save writes to
@@ -52,42 +75,52 @@ SetTarget(f) == IF InPlace THEN cache' = f /\ UNCHANGED tmp ELSE tmp' = f /\ UNC
 SafeFile == [kind |-> "regular", mode |-> {}]
 SafeDir  == [kind |-> "directory", mode |-> {}]
 
-Init == /\ mem = 0 /\ up = "up" /\ pc = "idle" /\ snap = 0
+Init == /\ mem = 0 /\ untouched = FALSE /\ up = "up" /\ pc = "idle" /\ snap = 0
         /\ cache = Absent /\ tmp = Absent /\ lastOk = 0 /\ inflight = -1
         /\ fpath = SafeFile /\ dpath = SafeDir /\ usedUnsafe = FALSE
 
 Running == up = "up"
 keepPaths == UNCHANGED <<fpath, dpath, usedUnsafe>>
 
-Mutate == /\ Running /\ pc = "idle" /\ mem < MaxVer
+\* a change of the cache content (pods, containers, one entry ...); what was only loaded stays as it is
+Mutate == /\ Running /\ pc = "idle" /\ mem >= 0 /\ mem < MaxVer
           /\ mem' = mem + 1
-          /\ UNCHANGED <<up, pc, snap, cache, tmp, lastOk, inflight>> /\ keepPaths
+          /\ UNCHANGED <<untouched, up, pc, snap, cache, tmp, lastOk, inflight>> /\ keepPaths
+
+\* everything that was only loaded is asked for (GetPolicyEntry of every key): nothing is left in its loaded form
+Touch == /\ Running /\ pc = "idle" /\ untouched
+         /\ untouched' = FALSE
+         /\ UNCHANGED <<mem, up, pc, snap, cache, tmp, lastOk, inflight>> /\ keepPaths
+
+\* what Snapshot() serializes for the content `snap`: both the loaded-only and the touched part
+Written == IF Deviation = "drop_untouched" /\ untouched /\ snap > 0 THEN Stripped(snap) ELSE snap
 
 SaveBegin == /\ Running /\ pc = "idle"
              /\ snap' = mem /\ pc' = "open"
-             /\ UNCHANGED <<mem, up, cache, tmp, lastOk, inflight>> /\ keepPaths
+             /\ UNCHANGED <<mem, untouched, up, cache, tmp, lastOk, inflight>> /\ keepPaths
 
-\* openat(O_WRONLY|O_CREAT|O_TRUNC): the target exists and is empty
+\* openat(O_WRONLY|O_CREAT|O_TRUNC): the target exists and is empty; without O_TRUNC a file that is already there
+\* (left behind by an interrupted save) keeps its length
 OpenTmp == /\ Running /\ pc = "open"
-           /\ SetTarget(File(snap, 0))
+           /\ SetTarget(IF Deviation = "no_trunc" /\ Target.ex THEN File(Written, 0, Target.len) ELSE File(Written, 0, 0))
            /\ pc' = IF Deviation = "early_rename" THEN "rename" ELSE "write"
-           /\ UNCHANGED <<mem, up, snap, lastOk, inflight>> /\ keepPaths
+           /\ UNCHANGED <<mem, untouched, up, snap, lastOk, inflight>> /\ keepPaths
 
-WriteTmp == /\ Running /\ pc = "write" /\ Target.ex /\ Target.n < Chunks
-            /\ SetTarget(File(Target.id, Target.n + 1))
-            /\ pc' = IF Target.n + 1 = Chunks THEN "close" ELSE "write"
-            /\ UNCHANGED <<mem, up, snap, lastOk, inflight>> /\ keepPaths
+WriteTmp == /\ Running /\ pc = "write" /\ Target.ex /\ Target.n < Size(Target.id)
+            /\ SetTarget(File(Target.id, Target.n + 1, Max2(Target.len, Target.n + 1)))
+            /\ pc' = IF Target.n + 1 = Size(Target.id) THEN "close" ELSE "write"
+            /\ UNCHANGED <<mem, untouched, up, snap, lastOk, inflight>> /\ keepPaths
 
 CloseTmp == /\ Running /\ pc = "close"
             /\ pc' = CASE Deviation = "early_rename" -> "done"
                        [] Deviation = "unlink_first" -> "unlink"
                        [] OTHER -> "rename"
-            /\ UNCHANGED <<mem, up, snap, cache, tmp, lastOk, inflight>> /\ keepPaths
+            /\ UNCHANGED <<mem, untouched, up, snap, cache, tmp, lastOk, inflight>> /\ keepPaths
 
 \* a deviation: remove the old file first, then move the new one in place
 Unlink == /\ Running /\ pc = "unlink"
           /\ cache' = Absent /\ pc' = "rename"
-          /\ UNCHANGED <<mem, up, snap, tmp, lastOk, inflight>> /\ keepPaths
+          /\ UNCHANGED <<mem, untouched, up, snap, tmp, lastOk, inflight>> /\ keepPaths
 
 \* rename(2) replaces the destination atomically; for the in-place deviation there is nothing left to do
 Rename == /\ Running /\ pc = "rename"
@@ -96,29 +129,30 @@ Rename == /\ Running /\ pc = "rename"
                   THEN cache' = tmp /\ UNCHANGED tmp     \* the descriptor still writes to the (renamed) file
                   ELSE cache' = tmp /\ tmp' = Absent
           /\ pc' = IF Deviation = "early_rename" THEN "write2" ELSE "done"
-          /\ UNCHANGED <<mem, up, snap, lastOk, inflight>> /\ keepPaths
+          /\ UNCHANGED <<mem, untouched, up, snap, lastOk, inflight>> /\ keepPaths
 
 \* early_rename: the data is written after the rename, through the still open descriptor
-WriteLate == /\ Running /\ pc = "write2" /\ cache.n < Chunks
-             /\ cache' = File(cache.id, cache.n + 1) /\ tmp' = Absent
-             /\ pc' = IF cache.n + 1 = Chunks THEN "close" ELSE "write2"
-             /\ UNCHANGED <<mem, up, snap, lastOk, inflight>> /\ keepPaths
+WriteLate == /\ Running /\ pc = "write2" /\ cache.n < Size(cache.id)
+             /\ cache' = File(cache.id, cache.n + 1, Max2(cache.len, cache.n + 1)) /\ tmp' = Absent
+             /\ pc' = IF cache.n + 1 = Size(cache.id) THEN "close" ELSE "write2"
+             /\ UNCHANGED <<mem, untouched, up, snap, lastOk, inflight>> /\ keepPaths
 
 \* Save returns nil
 SaveOk == /\ Running /\ pc = "done"
           /\ lastOk' = snap /\ pc' = "idle"
-          /\ UNCHANGED <<mem, up, snap, cache, tmp, inflight>> /\ keepPaths
+          /\ UNCHANGED <<mem, untouched, up, snap, cache, tmp, inflight>> /\ keepPaths
 
 \* the next system call of the save returns an error (ENOSPC, EIO): Save gives up and returns the error; what was
 \* written so far stays where it is (os.WriteFile closes the descriptor)
 Fail == /\ Running /\ pc \in {"open", "write", "close", "rename", "unlink", "write2"}
         /\ pc' = IF Deviation = "ignore_write_error" /\ pc = "write" THEN "close" ELSE "idle"
-        /\ UNCHANGED <<mem, up, snap, cache, tmp, lastOk, inflight>> /\ keepPaths
+        /\ UNCHANGED <<mem, untouched, up, snap, cache, tmp, lastOk, inflight>> /\ keepPaths
 
 \* SIGKILL at any instant: memory is gone, the disk stays as it is
 Crash == /\ Running
          /\ up' = "down" /\ pc' = "idle"
          /\ inflight' = IF pc = "idle" THEN -1 ELSE snap
+         /\ untouched' = FALSE
          /\ UNCHANGED <<mem, snap, cache, tmp, lastOk>> /\ keepPaths
 
 \* while the plugin is down somebody replaces the cache file or the directory
@@ -127,11 +161,11 @@ Tamper == /\ up = "down" /\ fpath = SafeFile /\ dpath = SafeDir
           /\ \E k \in PathKinds, m \in SUBSET {"gw", "ow"}, which \in {"file", "dir"} :
                 IF which = "file" THEN fpath' = [kind |-> k, mode |-> m] /\ UNCHANGED dpath
                 ELSE dpath' = [kind |-> k, mode |-> m] /\ UNCHANGED fpath
-          /\ UNCHANGED <<mem, up, pc, snap, cache, tmp, lastOk, inflight, usedUnsafe>>
+          /\ UNCHANGED <<mem, untouched, up, pc, snap, cache, tmp, lastOk, inflight, usedUnsafe>>
 
 Repair == /\ up = "refused"
           /\ fpath' = SafeFile /\ dpath' = SafeDir /\ up' = "down"
-          /\ UNCHANGED <<mem, pc, snap, cache, tmp, lastOk, inflight, usedUnsafe>>
+          /\ UNCHANGED <<mem, untouched, pc, snap, cache, tmp, lastOk, inflight, usedUnsafe>>
 
 \* what checkPerm sees: os.Lstat does not follow a symbolic link; the deviation uses os.Stat
 Seen(p, want) == IF Deviation = "stat_follows_symlink" /\ p.kind = "symlink" THEN [kind |-> want, mode |-> {}] ELSE p
@@ -140,36 +174,41 @@ PathsPass == /\ ~Unsafe(Seen(fpath, "regular").kind, Seen(fpath, "regular").mode
 PathsSafe == /\ ~Unsafe(fpath.kind, fpath.mode, "regular") \/ ~cache.ex
              /\ ~Unsafe(dpath.kind, dpath.mode, "directory")
 
-\* NewCache: refuse unsafe paths, else Load (a missing or empty file is an empty cache, a torn one is an error)
+\* NewCache: refuse unsafe paths, else Load (a missing or empty file is an empty cache, a torn one -- cut short, or a
+\* snapshot followed by stale bytes -- is an error).  What a non-empty file held is in memory in its loaded form.
 Restart == /\ up = "down"
            /\ IF ~PathsPass
-              THEN up' = "refused" /\ UNCHANGED <<mem, lastOk, usedUnsafe, inflight>>
+              THEN up' = "refused" /\ UNCHANGED <<mem, untouched, lastOk, usedUnsafe, inflight>>
               ELSE /\ usedUnsafe' = (usedUnsafe \/ ~PathsSafe)
-                   /\ IF ~cache.ex \/ cache.n = 0
-                      THEN up' = "up" /\ mem' = 0 /\ lastOk' = 0 /\ inflight' = -1
+                   /\ IF ~cache.ex \/ cache.len = 0
+                      THEN up' = "up" /\ mem' = 0 /\ untouched' = FALSE /\ lastOk' = 0 /\ inflight' = -1
                       ELSE IF Complete(cache)
-                           THEN up' = "up" /\ mem' = cache.id /\ lastOk' = cache.id /\ inflight' = -1
-                           ELSE up' = "loaderror" /\ UNCHANGED <<mem, lastOk, inflight>>
+                           THEN up' = "up" /\ mem' = cache.id /\ untouched' = (cache.id # 0) /\ lastOk' = cache.id /\ inflight' = -1
+                           ELSE up' = "loaderror" /\ UNCHANGED <<mem, untouched, lastOk, inflight>>
            /\ UNCHANGED <<pc, snap, cache, tmp, fpath, dpath>>
 
-Next == Mutate \/ SaveBegin \/ OpenTmp \/ WriteTmp \/ CloseTmp \/ Unlink \/ Rename \/ WriteLate \/ SaveOk \/ Fail \/ Crash
+Next == Mutate \/ Touch \/ SaveBegin \/ OpenTmp \/ WriteTmp \/ CloseTmp \/ Unlink \/ Rename \/ WriteLate \/ SaveOk \/ Fail \/ Crash
         \/ Tamper \/ Repair \/ Restart
 
 Spec == Init /\ [][Next]_vars
 
 -----------------------------------------------------------------------------
 TypeOK == /\ mem \in 0 .. MaxVer /\ snap \in 0 .. MaxVer /\ lastOk \in 0 .. MaxVer /\ inflight \in -1 .. MaxVer
+          /\ untouched \in BOOLEAN
           /\ up \in {"up", "down", "refused", "loaderror"}
           /\ pc \in {"idle", "open", "write", "close", "rename", "unlink", "write2", "done"}
           /\ cache.n \in 0 .. Chunks /\ tmp.n \in 0 .. Chunks
+          /\ cache.len \in cache.n .. Chunks /\ tmp.len \in tmp.n .. Chunks
+          \* the real code truncates the temporary file: no file ever carries stale bytes
+          /\ (Deviation = "none" => cache.len = cache.n /\ tmp.len = tmp.n)
 
 \* the versions a complete cache file may hold right now: the last successful save, or the one in progress
 \* (also the one that was in progress when the process was killed)
 Legit == {lastOk} \cup (IF pc # "idle" THEN {snap} ELSE {}) \cup (IF inflight >= 0 THEN {inflight} ELSE {})
 
 \* what a fresh NewCache would find if it were started now, as an observation in the shape of PersistPreds
-LoadsNow == ~cache.ex \/ cache.n = 0 \/ Complete(cache)
-FoundNow == IF ~cache.ex \/ cache.n = 0 THEN 0 ELSE cache.id
+LoadsNow == ~cache.ex \/ cache.len = 0 \/ Complete(cache)
+FoundNow == IF ~cache.ex \/ cache.len = 0 THEN 0 ELSE cache.id
 
 \* C10: at EVERY instant the cache file is None (only before the first successful save), or a complete old or new snapshot
 Inv_FileIsCompleteSnapshot ==
@@ -187,7 +226,12 @@ Act_ReloadEqualsLastSave ==
 Inv_RefuseUnsafePath == ~usedUnsafe
 
 \* vacuity: the interesting situations are reachable (checked as expected violations in MC_Persist_reach.cfg)
-Reach_TornTmpAfterCrash == ~(up = "down" /\ tmp.ex /\ tmp.n > 0 /\ tmp.n < Chunks /\ Complete(cache))
+Reach_TornTmpAfterCrash == ~(up = "down" /\ tmp.ex /\ tmp.n > 0 /\ tmp.n < Size(tmp.id) /\ Complete(cache))
 Reach_NewAfterCrashInSave == ~(up = "down" /\ inflight >= 0 /\ Complete(cache) /\ cache.id = inflight /\ inflight # lastOk)
 Reach_Refused == up # "refused"
+\* several generations: a save starts over a LONGER temporary file that an interrupted save left behind (of a later
+\* process: the save is the first one after the restart, lastOk is what was loaded); a save starts while part of the
+\* memory is only loaded; and that save gets reloaded (the file on disk was written while `untouched` held)
+Reach_SaveOverLongerLeftover == ~(Running /\ pc = "open" /\ tmp.ex /\ tmp.len > Size(snap) /\ snap # lastOk /\ inflight = -1 /\ Complete(cache))
+Reach_SaveWhileUntouched == ~(Running /\ pc = "done" /\ untouched /\ snap # lastOk)
 =============================================================================
